@@ -150,6 +150,7 @@ type Exec struct {
 	inEnv         bool
 	skipPhis      bool
 	pathUnknown   bool
+	auxVars       []*Term
 	rawInit       bool
 	deadline      time.Time
 	blockTicks    int
@@ -347,7 +348,7 @@ func (ex *Exec) modelVars() []*Term {
 	if len(ex.vars) > 400 {
 		return nil
 	}
-	return ex.vars
+	return ex.allVars()
 }
 
 func (ex *Exec) noteUnknown(what string) {
@@ -527,6 +528,15 @@ func (ex *Exec) varFor(t *Term) *Term {
 		return t
 	}
 	v := ex.C.Var(fmt.Sprintf("probe!%d", t.ID), t.W)
+	known := false
+	for _, a := range ex.auxVars {
+		if a == v {
+			known = true
+		}
+	}
+	if !known {
+		ex.auxVars = append(ex.auxVars, v)
+	}
 	ex.addPCNoCheck(ex.C.mk(OpEq, 0, []*Term{v, t}, 0, ""))
 	return v
 }
